@@ -221,10 +221,10 @@ def run(ctx):
             grid_eq(ctx, key, mgrid(p.ret, L, n), ident(n), 'const: Default is the identity', r.code)
         elif k == 'display':
             A = msyms('a0', L, n)
-            vals = [p.term(e[1]) for e in p.events if e[0] == 'fmtval']
+            vals = [p.term(e[1]) for e in p.events if e[0] in ('fmtval', 'fmtarg')]
             E = [A[q // n][q % n] for q in range(n * n)]
             vec_eq(ctx, key + '/order', vals, E, 'trace: Display prints elements row by row', r.code)
-            display[(L, n)] = [(e[0], e[1] if e[0] == 'fmt' else str(p.term(e[1])).split('.')[-2:]) for e in p.events if e[0] in ('fmt', 'fmtval')]
+            display[(L, n)] = [(e[0], e[1] if e[0] == 'fmt' else str(p.term(e[1])).split('.')[-2:]) for e in p.events if e[0] in ('fmt', 'fmtval', 'fmtarg')]
         elif k == 'prog':
             A = msyms('a0', L, n)
             grid_eq(ctx, key, mgrid(p.ret, L, n), PROG[m['p']](A, n), 'perm: short program gives the same abstract matrix in both layouts', r.code)
@@ -232,6 +232,6 @@ def run(ctx):
         if ('Rows', n) in display and ('Cols', n) in display:
             a = [(x[0], x[1] if x[0] == 'fmt' else None) for x in display[('Rows', n)]]
             b = [(x[0], x[1] if x[0] == 'fmt' else None) for x in display[('Cols', n)]]
-            ctx.ob('c03/display/layout-independent/%d' % n, a == b, 'trace: Display output (literal pieces and element positions) does not depend on the layout', 'Display for Mat%d' % n, a, b)
+            ctx.ob('c03/display/layout-independent/%d' % n, a == b, 'trace: Display output (literal pieces, element positions, and whether the caller\'s format parameters are forwarded to the elements) does not depend on the layout', 'Display for Mat%d' % n, a, b)
     ctx.floor('roots analysed', done, 344)
     ctx.floor('obligations', ctx.obligations, 2900)
